@@ -157,6 +157,15 @@ def shard_main(ctx):
         ctx.run_hypothesis([gen.charts(o, 'lua'), gen.event_histories()],
                            lambda ch, evs, engine=engine: check_case(ctx, ch, evs, engine), p["examples"] // 2,
                            lambda ch, evs, engine=engine: dict(case_repr(ch, evs), engine=engine), name=engine)
+        kp = gen.conflict_profile()
+        kp.max_states = 9
+        kp.descriptors = [['a'], ['a'], ['*'], ['b'], ['a', 'b'], ['a']]   # one transition reacting to both events warms the engines' caches
+        ctx.run_hypothesis([gen.charts(kp, 'lua'), gen.event_histories(7, ['a', 'b'])],
+                           lambda ch, evs, engine=engine: check_case(ctx, ch, evs, engine), p["examples"] // 2,
+                           lambda ch, evs, engine=engine: dict(case_repr(ch, evs), engine=engine), name="conflict-" + engine)
+        ctx.run_hypothesis([gen.parallel_region_charts('lua'), gen.event_histories(7, ['a', 'b', 'back'])],
+                           lambda ch, evs, engine=engine: check_case(ctx, ch, evs, engine), p["examples"] // 2,
+                           lambda ch, evs, engine=engine: dict(case_repr(ch, evs), engine=engine), name="regions-" + engine)
         cp = gen.completion_profile()
         cp.loose = True
         ctx.run_hypothesis([gen.charts(cp, 'lua'), gen.event_histories(5, ['a', 'b'])],
